@@ -161,6 +161,14 @@ def make_exception(shape, tag):
       'StopIteration': lambda: (StopIteration(m), 'full'),
       'StopAsyncIteration': lambda: (StopAsyncIteration(m), 'full'),
       'AssertionError': lambda: (AssertionError(m), 'full'),
+      # classes that calling code likes to catch for its own purposes
+      # (signature probing, attribute fallbacks, optional imports, ...)
+      'TypeError': lambda: (TypeError(m), 'full'),
+      'AttributeError': lambda: (AttributeError(m), 'full'),
+      'RuntimeError': lambda: (RuntimeError(m), 'full'),
+      'NotImplementedError': lambda: (NotImplementedError(m), 'full'),
+      'ImportError': lambda: (ImportError(m), 'full'),
+      'RecursionError': lambda: (RecursionError(m), 'full'),
       'B_Base': lambda: (B_Base(m), 'base-exception'),
       'SystemExit': lambda: (SystemExit(m), 'base-exception'),
       'GeneratorExit': lambda: (GeneratorExit(m), 'base-exception'),
@@ -174,6 +182,8 @@ def make_exception(shape, tag):
 EXC_SHAPES = ['ValueError', 'KeyError', 'OSError', 'UnicodeDecodeError',
               'CustomInit', 'KwOnlyInit', 'StrOverride', 'Slots', 'Sub',
               'StopIteration', 'StopAsyncIteration', 'AssertionError', 'Twin',
+              'TypeError', 'AttributeError', 'RuntimeError',
+              'NotImplementedError', 'ImportError', 'RecursionError',
               'B_Base', 'SystemExit', 'GeneratorExit', 'KeyboardInterrupt',
               'NoSubclassHook', 'FinalMeta']
 
